@@ -1045,6 +1045,26 @@ pub fn gen_c20_corpus(ctx: &Ctx, out: &str) -> std::io::Result<(u64, u64, u64)> 
         }
         writeln!(w, "D")?;
     }
+    // aircraft published exactly on the lines where coordinates take their extreme or "default"
+    // values (the 180 degree meridian: longitude exactly -180.0; the prime meridian and the
+    // equator: exactly 0.0 / -0.0; the poles), seen from a receiver next to them, in both orders
+    // of the pair and with and without altitude: what a (de)serializer that validates, skips or
+    // normalises such values would lose
+    let mut n_edge = 0u64;
+    for (k, &(lat, lon)) in [(51.0f64, 180.0f64), (0.0, 180.0), (-33.0, -180.0), (51.0, 0.0), (0.0, 0.0), (0.0, 45.0), (90.0, 0.0), (-90.0, 0.0), (87.0, 180.0), (-87.0, 0.0), (10.0, 180.0), (0.0, 90.0), (45.0, -90.0), (60.0, 180.0)].iter().enumerate() {
+        for order in 0..2usize {
+            let rlon = if lon == 0.0 { 0.3 } else if lon > 0.0 { lon - 0.3 } else { lon + 0.3 };
+            writeln!(w, "H {} {} {}", if lat.abs() > 89.0 { lat - lat.signum() * 0.2 } else { lat }, rlon, 500.0)?;
+            let addr = 0x3C0000 + (k * 2 + order) as u32;
+            writeln!(w, "A {}", hex(&encode::long_frame(17, 5, addr, &encode::me_identification(4, 0, &encode::callsign_chars(if order == 0 { "EDGE" } else { "" })))))?;
+            let alt = if order == 0 { encode::ac12_q(35000) } else { 0 };
+            for odd in if order == 0 { [false, true, false] } else { [true, false, true] } {
+                writeln!(w, "A {}", hex(&encode::long_frame(17, 5, addr, &encode::me_airborne_position(11, 0, 0, alt, 0, cpr::encode(lat, lon, odd)))))?;
+                writeln!(w, "D")?;
+                n_edge += 1;
+            }
+        }
+    }
     w.flush()?;
-    Ok((n_frames + n_default, n_pairs + n_pairs / 2 + 2 * n_half, n_hist))
+    Ok((n_frames + n_default, n_pairs + n_pairs / 2 + 2 * n_half, n_hist + n_edge / 3))
 }
